@@ -48,9 +48,17 @@ class QueueGen:
                             out.append(pre + pre2 + ["zit_new o=0 o2=1"] + ["zit_next"] * (m + 2) + ["destroy"])
                             if m:
                                 out.append(pre + pre2 + ["zit_new o=0 o2=1"] + ["zit_next"] * m + ["zit_replace 7 8", "zit_next", "poll", "poll o=1", "destroy"])
-        out.append(["new cap=4 fail=1", "enqueue 1", "destroy"])
-        out.append(["new cap=4 fail=2", "enqueue 1", "destroy"])
-        out.append(["new cap=4 fail=3", "enqueue 1", "destroy"])
+        if focus == "all":                          # only "all" carries fail= (CONVENTIONS addendum)
+            out.append(["new cap=4 fail=1", "enqueue 1", "destroy"])
+            out.append(["new cap=4 fail=2", "enqueue 1", "destroy"])
+            out.append(["new cap=4 fail=3", "enqueue 1", "destroy"])
+        if focus in ("reject", "all"):             # rejected calls: empty queue, iterator replace before next
+            for cap in (1, 2, 4):
+                out.append([f"new cap={cap}", "poll", "peek", "it_new", "it_replace 5", "it_next", "enqueue 1", "it_new",
+                            "it_replace 6", "it_next", "it_next", "it_replace 7", "poll", "poll", "peek", "destroy"])
+                out.append([f"new cap={cap}", f"new cap={cap} o=1", "enqueue 1", "zit_new o=0 o2=1", "zit_replace 3 4",
+                            "zit_next", "enqueue 2 o=1", "zit_new o=0 o2=1", "zit_replace 3 4", "zit_next", "zit_replace 5 6",
+                            "zit_next", "destroy"])
         out.append(["new_default", "enqueue 1", "enqueue 2", "poll", "peek", "poll", "poll", "destroy"])
         out.append(["new cap=2", "enqueue 1", "enqueue 2", "it_new", "it_replace 5", "zit_next", "destroy_cb"])
         return out
@@ -75,12 +83,16 @@ class QueueGen:
             p_enq = rng.choice([0.3, 0.5, 0.55, 0.7, 0.9])
             if focus in ("growth", "fault"):
                 p_enq = rng.choice([0.6, 0.8, 0.95])
+            if focus == "reject":                   # mostly near-empty queues: poll/peek on empty are the rejected calls
+                p_enq = rng.choice([0.2, 0.35, 0.5])
             allow_fail = focus == "all"
             for _ in range(length):
                 r = rng.random() if focus != "growth" else max(rng.random(), 0.061)
                 q = sims[0]
                 if r < 0.04:
                     ops.append("it_new")
+                    if focus in ("reject", "all") and rng.random() < 0.5:
+                        ops.append(f"it_replace {pick_value(rng)}")     # before the first next: rejected, inert
                     for j in range(len(q.items) + 1):
                         ops.append("it_next")
                         if j < len(q.items) and rng.random() < 0.3:
